@@ -2004,8 +2004,18 @@ func JsonObject(ctx context.Context, scope *ReferenceScope, fn parser.Function) 
 			return nil, err
 		}
 	} else {
+		// the arguments are select fields only when the function was written with the keyword;
+		// a quoted name (`json_object`(a, b)) is parsed as an ordinary function with plain values
+		fields := make([]parser.QueryExpression, len(fn.Args))
+		for i, arg := range fn.Args {
+			if _, ok := arg.(parser.Field); ok {
+				fields[i] = arg
+			} else {
+				fields[i] = parser.Field{Object: arg}
+			}
+		}
 		selectClause := parser.SelectClause{
-			Fields: fn.Args,
+			Fields: fields,
 		}
 		if err := view.Select(ctx, scope, selectClause); err != nil {
 			return nil, err
